@@ -545,6 +545,23 @@ def rule_collected_then_filed(chk, fb, rid, floor=1):
                            and any(x[0] == "call" and x[2] == bi for x in fl.atoms(ct["args"][0], stop_calls=only_copies))]
             if scope_tests and stores:
                 late = sorted(b["blocks"][ci]["t"].get("ln") for ci in stores if not any(cfg.dominates(st_, ci) for st_ in scope_tests))
+                # ... and where the scope decides, nothing else does: the sheet a filing call addresses is not computed from
+                # the element's scope id AND from what the element points at (a precedence rule hidden in `a.or(b)`)
+                mixed = []
+                for ci in sorted(stores):
+                    ct = b["blocks"][ci]["t"]
+                    ra_ = fl.atoms(ct["args"][0]) if ct["args"] else set()
+                    names = {x[1].split("::")[-1] for x in ra_ if x[0] == "call"}
+                    # closures the value went through (`.then(|| ..)`, `.and_then(|v| ..)`) count with what they call
+                    for x in ra_:
+                        if x[0] == "cfn" and x[1] in fb.mir:
+                            names |= {tt.get("fn", "").split("::")[-1] for _, tt in fb.calls_in(fb.mir[x[1]])}
+                    by_scope = any(n.startswith(("get_local_", "local_")) for n in names)
+                    by_target = any(("address" in n or n.endswith("by_name") or n.endswith("by_name_mut") or "sheet_name" in n) for n in names)
+                    if by_scope and by_target:
+                        mixed.append(ct.get("ln"))
+                chk.ob(r, "%s:%s:scope-alone" % (d.split("::", 1)[-1], short), not mixed, where="%s:%s" % (b["file"], mixed[0] if mixed else t.get("ln")),
+                       detail="filing calls whose target sheet is computed from the scope id and from the element's address together: %s" % (mixed or "none"))
                 chk.ob(r, "%s:%s:scope-first" % (d.split("::", 1)[-1], short), not late, where="%s:%s" % (b["file"], late[0] if late else t.get("ln")),
                        detail="the element's own scope test decides first where it is filed: %s" % ("yes" if not late else "NO - filing call(s) at line(s) %s can be reached without asking for the element's scope (a sheet-scoped name is filed by what it points at)" % late))
 
@@ -735,3 +752,215 @@ def rule_accessor_keeps_state(chk, fb, rid, only=None, floor=150):
         bad = sorted({t["fn"].split("::")[-1] for t in opt if (t["fn"].startswith("std::option::") and t["fn"].split("::")[-1] in REPLACERS) or (t["fn"].startswith("std::mem::") and t["fn"].split("::")[-1] in ("replace", "take", "swap"))})
         chk.touch(d)
         chk.ob(r, d.replace("structs::", "", 1), not bad, where=fb.loc(d), detail="Option / mem operations used: %s%s" % (sorted({t["fn"].split("::")[-1] for t in opt}), "; REPLACES the component on every access: %s" % bad if bad else ""))
+
+
+# ---------------------------------------------------------------------------------------------------------------------
+# text is read untrimmed
+def rule_text_untrimmed(chk, fb, rid, floor=2):
+    """Strings of the model (shared strings, rich-text runs, comment text) are read through the `<t>` reader; the XML
+    reader that feeds it must not trim text nodes, or leading / trailing white space and white-space-only runs are lost."""
+    from mirq import Flow
+
+    TEXT = "structs::text::Text::set_attributes"
+    r = chk.rule(
+        rid,
+        "text is read untrimmed: every function that configures an XML reader's text trimming and hands that reader (through the struct readers it calls) to the `<t>` reader configures it with trim_text(false), and never with true",
+        floor=floor,
+    )
+    memo = {}
+
+    def feeds_text(fn, p, depth=0):
+        """parameter p (a &mut Reader) of fn reaches the <t> reader"""
+        key = (fn, p)
+        if key in memo:
+            return memo[key]
+        memo[key] = False
+        b = fb.mir.get(fn)
+        if not b or depth > 8:
+            return False
+        if fn == TEXT:
+            memo[key] = True
+            return True
+        fl = Flow(fb, b)
+        for _, t in fl.calls():
+            f = t.get("fn", "")
+            if f not in fb.mir:
+                continue
+            for i, a in enumerate(t["args"]):
+                if ("arg", p) in fl.atoms(a, through_calls=False) and "Reader<" in fb.ty(fb.mir[f]["locals"][i + 1]["t"]) if i + 1 < len(fb.mir[f]["locals"]) else False:
+                    if feeds_text(f, i + 1, depth + 1):
+                        memo[key] = True
+                        return True
+        return False
+
+    for d, b in sorted(fb.mir.items()):
+        if "::{closure" in d or b["file"].startswith("tests"):
+            continue
+        fl = Flow(fb, b)
+        trims = [(bi, t) for bi, t in fl.calls() if t.get("fn", "").split("::")[-1] == "trim_text"]
+        if not trims:
+            continue
+        # the reader object configured here: a local of type Reader<..>
+        readers = [l for l, loc in enumerate(b["locals"]) if l > b["argc"] and fb.ty(loc["t"]).startswith("quick_xml::Reader<")]
+        feeds = False
+        for _, t in fl.calls():
+            f = t.get("fn", "")
+            if f not in fb.mir:
+                continue
+            for i, a in enumerate(t["args"]):
+                if "p" in a and fl.deref_root(a["p"]["l"]) in readers and i + 1 < len(fb.mir[f]["locals"]) and "Reader<" in fb.ty(fb.mir[f]["locals"][i + 1]["t"]):
+                    if feeds_text(f, i + 1):
+                        feeds = True
+        if not feeds:
+            continue
+        vals = [a.get("i") for _, t in trims for a in t["args"][1:]]
+        chk.touch(d)
+        chk.ob(r, d.split("::", 1)[-1], bool(vals) and all(v == 0 for v in vals), where=fb.loc(d), detail="this reader feeds the <t> reader; trim_text settings: %s" % ["true" if v == 1 else ("false" if v == 0 else "computed") for v in vals])
+
+
+# ---------------------------------------------------------------------------------------------------------------------
+# arguments reach the parameters they are named after
+def _var_name(b, fl, l, depth=0):
+    """Source-level name of the variable a local stands for: itself, what it borrows (a named place such as one half of a
+    destructured tuple), what it was moved from, or what a Deref / as_str / as_ref call was applied to."""
+    if l is None or depth > 8:
+        return None
+    if b["locals"][l].get("n"):
+        return b["locals"][l]["n"]
+    if l in fl.ref_of:
+        pl = fl.ref_of[l]
+        fields = [str(e.get("f")) for e in pl.get("pr", []) if isinstance(e, dict) and "f" in e]
+        for e in b.get("dbg") or []:
+            ep = e.get("place", {})
+            if ep.get("l") == pl["l"] and [str(x.get("f")) for x in ep.get("pr", []) if isinstance(x, dict) and "f" in x] == fields and fields:
+                return e.get("name")
+        return _var_name(b, fl, pl["l"], depth + 1) if not fields else None
+    ds = fl.defs.get(l, [])
+    if len(ds) == 1:
+        if ds[0][0] == "rv" and ds[0][3]["k"] == "use" and "p" in ds[0][3]["op"] and not ds[0][3]["op"]["p"].get("pr"):
+            return _var_name(b, fl, ds[0][3]["op"]["p"]["l"], depth + 1)
+        if ds[0][0] == "call" and ds[0][3].get("fn", "").split("::")[-1] in ("deref", "as_str", "as_ref", "borrow", "as_slice", "as_path") and ds[0][3]["args"] and "p" in ds[0][3]["args"][0]:
+            return _var_name(b, fl, ds[0][3]["args"][0]["p"]["l"], depth + 1)
+    return None
+
+
+def rule_swapped_args(chk, fb, rid, floor=3000):
+    """`f(comment_no, vml_drawing_no)` into `fn f(vml_drawing_no, comment_no)`: two arguments of the same type, each a
+    variable that carries the *other* parameter's name.  (Reordering a signature without its call sites compiles.)"""
+    from mirq import Flow
+
+    r = chk.rule(
+        rid,
+        "arguments reach the parameters they are named after: at no call of a crate function are two same-typed parameters each given a variable that bears the other parameter's name",
+        floor=1,
+    )
+    n = 0
+    bad = []
+    for d, b in sorted(fb.mir.items()):
+        if b["file"].startswith("tests"):
+            continue
+        fl = None
+        for bi, t in fb.calls_in(b):
+            cb = fb.mir.get(t.get("fn", ""))
+            if not cb or cb["argc"] != len(t["args"]) or cb["argc"] < 2:
+                continue
+            pn = [cb["locals"][i + 1].get("n") for i in range(cb["argc"])]
+            fl = fl or Flow(fb, b)
+            an = []
+            for a in t["args"]:
+                nm = None
+                if "p" in a:
+                    nm = _var_name(b, fl, a["p"]["l"])
+                an.append(nm)
+            n += 1
+            for i in range(len(an)):
+                for j in range(i + 1, len(an)):
+                    if an[i] and an[j] and an[i] != an[j] and an[i] == pn[j] and an[j] == pn[i] and cb["locals"][i + 1]["t"] == cb["locals"][j + 1]["t"]:
+                        bad.append("%s:%s" % (b["file"], t.get("ln")))
+                        chk.touch(d)
+                        chk.ob(r, "%s->%s:%s<->%s" % (d.split("::", 1)[-1], t["fn"].split("::")[-1], an[i], an[j]), False, where="%s:%s" % (b["file"], t.get("ln")),
+                               detail="variable `%s` is passed as parameter `%s` and `%s` as `%s` (same type)" % (an[i], pn[i], an[j], pn[j]))
+    chk.ob(r, "calls-inspected", not bad and n >= floor, where="src", detail="%d calls of crate functions with named arguments inspected; crossed pairs: %s" % (n, bad or "none"))
+
+
+# ---------------------------------------------------------------------------------------------------------------------
+# every element of a model list is written
+def rule_all_written(chk, fb, rid, elem_suffix="defined_name::DefinedName", floor=2):
+    """A part writer that walks a list of model objects writes each of them: no path through the loop body skips the
+    element's own writer (a `continue` for "duplicates" decided on stale keys drops user data)."""
+    from mirq import Flow
+    from cfg import CFG
+
+    r = chk.rule(
+        rid,
+        "every element is written: in the package writers, each loop over a list of %s calls the element's write_to* on every path through the loop body" % elem_suffix.split("::")[-1],
+        floor=floor,
+    )
+    for d, b in sorted(fb.mir.items()):
+        if not d.startswith("writer::") or "::{closure" in d:
+            continue
+        fl = Flow(fb, b)
+        cfg = None
+        loops = None
+        n = 0
+        for bi, t in fl.calls(lambda t: t.get("fn", "").endswith("::next") and "Iter" in t.get("fn", "")):
+            ety = fb.ty(b["locals"][t["dest"]["l"]]["t"])
+            if not ety.rstrip(">").endswith(elem_suffix):
+                continue
+            if cfg is None:
+                cfg = CFG(b)
+                loops = {}
+                for tl, h in cfg.back_edges():
+                    loops.setdefault(h, [set(), []])
+                    loops[h][0] |= cfg.natural_loop(tl, h)
+                    loops[h][1].append(tl)
+            mine = [(h, v) for h, v in loops.items() if bi in v[0]]
+            if not mine:
+                continue
+            h, (body, tails) = min(mine, key=lambda x: len(x[1][0]))
+            writes = {ci for ci, ct in fl.calls() if ci in body and ct.get("fn", "").split("::")[-1].startswith("write_to") and ct["args"] and any(x[0] == "call" and x[2] == bi for x in fl.atoms(ct["args"][0], stop_calls=lambda f: f in fb.mir and not f.endswith("::clone")))}
+            seen, work = set(), [h]
+            while work:
+                y = work.pop()
+                if y in seen or y in writes or y not in body:
+                    continue
+                seen.add(y)
+                work.extend(z for z in cfg.succ[y] if z != h)
+            bypass = any(tl in seen for tl in tails)
+            chk.touch(d)
+            chk.ob(r, "%s:loop#%d" % (d.split("::", 1)[-1], n), bool(writes) and not bypass, where="%s:%s" % (b["file"], t.get("ln")),
+                   detail="%d write call(s) in the loop; %s" % (len(writes), "a path through the loop body writes nothing for the element" if bypass or not writes else "every path writes the element"))
+            n += 1
+
+
+# ---------------------------------------------------------------------------------------------------------------------
+# positional tables are written whole
+POSITIONAL_EXEMPT = {
+    "NumberingFormats": "numFmt elements carry their own numFmtId attribute; only custom formats are written, built-in ids are implied",
+}
+FILTERING = ("filter", "filter_map", "skip", "take", "skip_while", "take_while", "step_by", "dedup", "dedup_by", "dedup_by_key", "retain")
+
+
+def rule_positional_tables(chk, fb, rid, floor=3):
+    """fontId / fillId / borderId / dxfId are positions in their table: the table's writer has to emit every entry, in
+    order - an entry that is skipped (because it "says nothing") shifts every later index."""
+    r = chk.rule(
+        rid,
+        "positional tables are written whole: the writer of every interning table whose ids are positions (fonts, fills, borders, dxfs ...) applies no filtering, skipping or de-duplicating adaptor to its entries",
+        floor=floor,
+    )
+    for d, b in sorted(fb.mir.items()):
+        if d.split("::")[-1] != "write_to" or not b.get("self_ty", "").startswith("structs::"):
+            continue
+        adt = b["self_ty"]
+        short = adt.split("::")[-1]
+        if (adt + "::set_style") not in fb.mir or not short.endswith("s") and not short.endswith("Crate"):
+            continue
+        # a table: a struct with one collection field
+        fields = fb.adts.get(adt, {}).get("variants", [{}])[0].get("fields", [])
+        if not any("Vec<" in f["ty"] for f in fields):
+            continue
+        names = sorted({t.get("fn", "").split("::")[-1] for bd in [d] + [c for c in fb.mir if c.startswith(d + "::{closure")] for _, t in fb.calls_in(fb.mir[bd])} & set(FILTERING))
+        chk.touch(d)
+        ok = not names or short in POSITIONAL_EXEMPT
+        chk.ob(r, short, ok, where=fb.loc(d), detail="adaptors that drop entries: %s%s" % (names or "none", "; exempt: " + POSITIONAL_EXEMPT[short] if names and short in POSITIONAL_EXEMPT else ""))
